@@ -23,17 +23,21 @@ def main():
         print("IMPORT FAILURE", e)
         ok = False
     mods = sorted(glob.glob(os.path.join(VERIF, "spec", "*.tla")) + glob.glob(os.path.join(VERIF, "spec", "mc", "*.tla")))
+    import shutil
+    import tempfile
+    os.makedirs(os.path.join(VERIF, "out"), exist_ok=True)
+    jtmp = tempfile.mkdtemp(prefix="sany-", dir=os.path.join(VERIF, "out"))       # nothing stays behind under /tmp
     for m in mods:
         cwd = os.path.join(VERIF, "spec")
-        p = subprocess.run(["java", "-cp", CP, "tla2sany.SANY", os.path.relpath(m, cwd)], cwd=cwd, stdout=subprocess.PIPE,
+        p = subprocess.run(["java", f"-Djava.io.tmpdir={jtmp}", "-cp", CP, "tla2sany.SANY", os.path.relpath(m, cwd)], cwd=cwd, stdout=subprocess.PIPE,
                            stderr=subprocess.STDOUT, text=True, timeout=120)
         bad = ("Error" in p.stdout and "*** Errors" in p.stdout) or "Fatal" in p.stdout or "Abort" in p.stdout or p.returncode != 0
         print(("PARSE FAIL " if bad else "parsed ") + os.path.relpath(m, VERIF))
         if bad:
             print(p.stdout[-2000:])
             ok = False
+    shutil.rmtree(jtmp, ignore_errors=True)
     # the proof modules are checked by tlapm itself (the checks of C05, C09, C12, C16 run it); here only: are the tools there
-    import shutil
     for tool in ("tlapm", "apalache-mc"):
         print(f"{tool}: " + (shutil.which(tool) or "NOT FOUND (the checks record 'not run' and do not rely on it)"))
     for m in sorted(glob.glob(os.path.join(VERIF, "spec", "tlaps", "*.tla"))):
